@@ -389,7 +389,7 @@ def c14(ctx):
         vlib.tlc_gen(ctx, "GenResolver.tla", "Gen_Resolver_sim.cfg", f3, simulate=(300, 200))
         files.append(f3)
     f2 = ctx.path("rs_rand.ndjson")
-    rand_resolver_programs(ctx.seed, 2000 if q else 40000, f2)
+    rand_resolver_programs(ctx.seed, 2000 if q else 200000, f2)
     files.append(f2)
     ctx.exhaustive = True
     for f in files:
@@ -1980,7 +1980,7 @@ def c16(ctx):
     rng = random.Random(ctx.seed)
     f3 = ctx.path("hs_rand.ndjson")
     with open(f3, "w") as f:
-        for _ in range(600 if q else 20000):
+        for _ in range(600 if q else 100000):
             f.write(json.dumps(rand_http_program(rng)) + "\n")
     ctx.exhaustive = True
     for f in (f1, f2, f3):
@@ -2082,7 +2082,7 @@ def c18(ctx):
     proxy_cut_sweep(f2)
     f3 = ctx.path("px_rand.ndjson")
     with open(f3, "w") as f:
-        for _ in range(500 if q else 15000):
+        for _ in range(500 if q else 80000):
             f.write(json.dumps(rand_proxy_program(rng)) + "\n")
     ctx.exhaustive = True
     for f in (f2, f3):
@@ -2261,7 +2261,7 @@ def c17(ctx):
     socks_sweep(f1)
     f2 = ctx.path("sk_rand.ndjson")
     with open(f2, "w") as f:
-        for _ in range(300 if q else 10000):
+        for _ in range(600 if q else 60000):
             f.write(json.dumps(rand_socks_program(rng)) + "\n")
     ctx.exhaustive = True
     for f in (f1, f2):
